@@ -219,9 +219,11 @@ def rule_drop(ctx):
         elif fr_param and fr_param in gt:
             # the caller must enqueue the covering formula
             handled = False
+            wl = [norm_src(w.test) for w in own_nodes(comp)
+                  if isinstance(w, ast.While)]
             for n in own_nodes(comp):
                 if isinstance(n, ast.Call) and call_name(n) in (
-                        'extend', 'append') and 'stack' in norm_src(n.func.value):
+                        'extend', 'append') and norm_src(n.func.value) in wl:
                     if any(k in norm_src(n) for k in (
                             'formula_ranges', 'formula_references', 'covering',
                             'anchor_of')):
@@ -247,7 +249,8 @@ def rule_drop(ctx):
     if implicit_none:
         rr.instances += 1
         last_if = [s for s in ac.node.body if isinstance(s, ast.If)][-1]
-        if 'cell.add(' in norm_src(last_if.test):
+        cellp = ac.params[1] if len(ac.params) > 1 else 'cell'
+        if ('%s.add(' % cellp) in norm_src(last_if.test):
             rr.ok('drop: Cell.add() reported nothing to add (blank cell)',
                   '%s:%d' % (EXCEL, last_if.lineno))
         else:
